@@ -120,6 +120,8 @@ def run_F(scn: Dict[str, Any], on, plugins=()) -> Dict[str, Any]:
                     O.after_advance()
             elif k == "query":
                 O.query(op)
+            elif k == "ahead":
+                O.ahead(op)
             elif k == "moments":
                 O.check_moments()
             elif k in ("vol", "drift", "corr", "uncorr", "shock"):
@@ -199,6 +201,7 @@ class FundOracle:
         self.trace: List = []
         self.just_shocked: Dict[int, int] = {}
         self.change_times = set()
+        self.peek: Dict[Any, float] = {}  # values read ahead of the clock: (market, time) -> value
         gc = (scn.get("knobs") or {}).get("generation_chunk") or 100
         self.gc = gc
 
@@ -227,6 +230,12 @@ class FundOracle:
                 mon.viol("C12", "initial_value", {"market": i, "got": v, "want": self.initial[i]})
         self.trace.append((t, tuple(vals)))
         mon.stat("f_steps")
+        for i in range(self.n):
+            pv = self.peek.pop((i, t), None)
+            if pv is not None:
+                if pv != vals[i]:
+                    mon.viol("C12", "continuation_differs_from_read_ahead", {"market": i, "t": t, "read_ahead": pv, "recorded": vals[i]})
+                mon.probe("read_ahead_realised")
         for mid, init, drift, k in getattr(self, "late", []):
             v = self.f.get_fundamental_price(market_id=mid, time=t)
             want = init if t <= k else init * math.exp(drift * (t - k))
@@ -322,8 +331,53 @@ class FundOracle:
                 if v != h[s]:
                     mon.viol("C12", "history_changed", {"market": i, "time": s, "was": h[s], "fundamentals_object_reads": v, "where": where})
 
+    def ahead(self, op):
+        """the list getter of the fundamentals object asked for past and *future* times in any order and
+        container form.  Future values must continue from the current level (exactly so with zero volatility)
+        and, unless a change intervenes, be the values the markets later record."""
+        mon = self.mon
+        now = self.sim.markets[0].get_time()
+        ts = [max(0, now + int(o)) for o in op.get("offs", [])]
+        if not ts:
+            return
+        form = op.get("form", "list")
+        for i, m in enumerate(self.sim.markets):
+            if form == "tuple":
+                arg = tuple(ts)
+            elif form == "range" and len(ts) >= 2 and ts[0] != ts[1] and ts == list(range(ts[0], ts[-1] + (1 if ts[1] > ts[0] else -1), ts[1] - ts[0])):
+                arg = range(ts[0], ts[-1] + (1 if ts[1] > ts[0] else -1), ts[1] - ts[0])
+            else:
+                arg = list(ts)
+            lst = list(self.f.get_fundamental_prices(market_id=m.market_id, times=arg))
+            if len(lst) != len(ts):
+                mon.viol("C12", "list_getter_length", {"market": i, "asked": ts, "got": len(lst)})
+                continue
+            for s_, v in zip(ts, lst):
+                if s_ < now:
+                    if s_ not in self.change_times and v != m.get_fundamental_price(s_):
+                        mon.viol("C12", "history_changed", {"market": i, "time": s_, "market_recorded": m.get_fundamental_price(s_),
+                                                            "list_getter": v, "asked": ts})
+                elif s_ > now:
+                    if not (isinstance(v, float) and math.isfinite(v) and v > 0):
+                        mon.viol("C12", "not_positive_finite", {"market": i, "t": s_, "value": v, "read_ahead": True})
+                    if self.vol[i] == 0.0:
+                        lvl, t0 = self.level[i]
+                        want = lvl * math.exp(self.drift[i] * (s_ - t0))
+                        if not close(v, want, 1e-12 * max(1, s_ - t0)):
+                            mon.viol("C12", "zero_vol_path", {"market": i, "t": s_, "got": v, "want": want, "level": lvl,
+                                                              "since": t0, "drift": self.drift[i], "read_ahead_at": now, "asked": ts})
+                    old = self.peek.get((i, s_))
+                    if old is not None and old != v:
+                        mon.viol("C12", "continuation_not_stable", {"market": i, "t": s_, "first_read": old, "now_reads": v, "at": now})
+                    self.peek[(i, s_)] = v
+                    mon.probe("read_ahead")
+        if any(a > b for a, b in zip(ts, ts[1:])):
+            mon.probe("read_ahead_not_ascending")
+
     def before_change(self, now):
         self.change_times.add(now)
+        for key in [k_ for k_ in self.peek if k_[1] >= now]:
+            del self.peek[key]  # a change at t legitimately moves everything from t on
         self.check_history("before change")
         self.at_change = [m.get_fundamental_price() for m in self.sim.markets]
 
